@@ -140,6 +140,22 @@ structure Cfg.GoodScan (c : Cfg) : Prop where
   infoReadGoneEnoent : c.infoReadGoneEnoent = true
   infoReadGoneEsrch : c.infoReadGoneEsrch = true
   finalAliveCheck : c.finalAliveCheck = true
+  /-- round 3: the `startswith` conjunct short-circuits the stat; the loop runs over every name
+      `os.listdir(<pid>/fd)` returned; the `except OSError` handler skips exactly EINVAL (22) and
+      ENAMETOOLONG (36); no handler names a further class -/
+  absFirst : c.absFirst = true
+  scanLimit : c.scanLimit = none
+  loopOverListdir : c.loopOverListdir = true
+  fdPathsExact : c.fdPathsExact = true
+  linkSkipErrnos : c.linkSkipErrnos = [22, 36]
+  linkGoneExtra : c.linkGoneExtra = []
+  linkSkipClasses : c.linkSkipClasses = []
+  infoGoneExtra : c.infoGoneExtra = []
+
+/-- `num_fds` is the length of the very same directory listing, uncapped -/
+structure Cfg.GoodCount (c : Cfg) : Prop where
+  numFdsLenListdir : c.numFdsLenListdir = true
+  numFdsCap : c.numFdsCap = none
 
 /-- permission: the strict stat helpers and the loop let PermissionError through, nothing in the
     loop swallows it as "gone", `wrap_exceptions` turns it into AccessDenied and asks
@@ -349,7 +365,7 @@ theorem link_cond (c : Cfg) (hg : c.GoodScan) (fs : FS) (k : FdKind) (hwf : WFKi
   | device path =>
     rw [pyReadlink_device c hg fs path hwf]; simp [target]
   | relative t =>
-    rw [not_abs_of_head c hg fs _ (by simpa [linkText] using hwf.1)]; simp [target]
+    rw [not_abs_of_head c hg fs _ (show (linkText (.relative t)).head? ≠ some 47 from hwf)]; simp [target]
 
 theorem reachesFdinfo_eq (fs : FS) (k : FdKind) : reachesFdinfo fs k = (target fs k).isSome := by
   cases k <;> simp [reachesFdinfo, target]
@@ -359,18 +375,48 @@ theorem reachesFdinfo_eq (fs : FS) (k : FdKind) : reachesFdinfo fs k = (target f
 /-- the two `os.stat` calls that may be refused (`path_exists_strict` inside `readlink()`, then
     `isfile_strict`) are refused exactly when the specification says the target cannot be
     stat'ed -/
+theorem endsWith_cons_ne (p : Bytes) (a : Bytes) (x y : Nat) (h : x ≠ y) :
+    endsWith (p ++ [x]) (a ++ [y]) = false := by
+  unfold endsWith
+  simp only [List.reverse_append, List.reverse_cons, List.reverse_nil, List.nil_append, List.cons_append,
+    List.isPrefixOf]
+  simp [h]
+
+theorem socket_text (ino : Nat) :
+    textStatDenied fs (linkText (.socket ino)) = false ∧ textStatDenied fs (linkText (.pipe ino)) = false := by
+  have hd : delText = [32, 40, 100, 101, 108, 101, 116, 101, 100] ++ [41] := rfl
+  constructor
+  · unfold textStatDenied linkText
+    have h0 : 0 ∉ [115, 111, 99, 107, 101, 116, 58, 91] ++ renderDec ino ++ [93] := by
+      simp only [List.mem_append, not_or]
+      exact ⟨⟨by decide, renderDec_not_mem ino 0 (by decide)⟩, by decide⟩
+    simp only [takeWhile_no_nul _ h0]
+    rw [hd, endsWith_cons_ne _ _ 41 93 (by decide)]
+    rfl
+  · unfold textStatDenied linkText
+    have h0 : 0 ∉ [112, 105, 112, 101, 58, 91] ++ renderDec ino ++ [93] := by
+      simp only [List.mem_append, not_or]
+      exact ⟨⟨by decide, renderDec_not_mem ino 0 (by decide)⟩, by decide⟩
+    simp only [takeWhile_no_nul _ h0]
+    rw [hd, endsWith_cons_ne _ _ 41 93 (by decide)]
+    rfl
+
+/-- the two `os.stat` calls that may be refused (`path_exists_strict` inside `readlink()`, then
+    `isfile_strict`) are refused exactly when the specification says the target cannot be
+    stat'ed -/
 theorem denied_cond (c : Cfg) (hg : c.GoodScan) (ha : c.GoodAccess) (fs : FS) (k : FdKind) (hwf : WFKind fs k) :
     (pyReadlinkDenied c fs (linkText k) ||
-      (startsWith c.absPrefix (pyReadlink c fs (linkText k)) &&
+      ((startsWith c.absPrefix (pyReadlink c fs (linkText k)) || !c.absFirst) &&
         (c.isfileDeniedRaises && fs.denied (pyReadlink c fs (linkText k))))) = statDenied fs k := by
-  have nonpath : ∀ k' : FdKind, fs.denied ((linkText k').takeWhile (· != 0)) = false →
-      (linkText k').head? ≠ some 47 →
+  rw [hg.absFirst]
+  simp only [Bool.not_true, Bool.or_false]
+  have nonpath : ∀ k' : FdKind, (linkText k').head? ≠ some 47 →
       (pyReadlinkDenied c fs (linkText k') ||
         (startsWith c.absPrefix (pyReadlink c fs (linkText k')) &&
-          (c.isfileDeniedRaises && fs.denied (pyReadlink c fs (linkText k'))))) = false := by
-    intro k' hd hh
+          (c.isfileDeniedRaises && fs.denied (pyReadlink c fs (linkText k'))))) = textStatDenied fs (linkText k') := by
+    intro k' hh
     rw [not_abs_of_head c hg fs _ hh]
-    simp [pyReadlinkDenied, hd]
+    simp [pyReadlinkDenied, textStatDenied, ha.existsDeniedRaises, hg.delSuffix]
   cases k with
   | regular path del =>
     have hp := pyReadlink_regular c hg fs path del hwf
@@ -388,10 +434,12 @@ theorem denied_cond (c : Cfg) (hg : c.GoodScan) (ha : c.GoodAccess) (fs : FS) (k
       simp only [linkText, if_true, takeWhile_no_nul _ h0, statDenied, ha.existsDeniedRaises, hg.delSuffix,
         endsWith_append, Bool.true_and]
       exact Bool.or_comm _ _
-  | socket ino => exact nonpath _ hwf (by simp [linkText])
-  | pipe ino => exact nonpath _ hwf (by simp [linkText])
-  | anon name => exact nonpath _ hwf (by simp [linkText])
-  | relative t => exact nonpath _ hwf.2 (by simpa [linkText] using hwf.1)
+  | socket ino => rw [nonpath _ (by simp [linkText])]; exact (socket_text ino).1
+  | pipe ino => rw [nonpath _ (by simp [linkText])]; exact (socket_text ino).2
+  | anon name => rw [nonpath _ (by simp [linkText])]; rfl
+  | relative t =>
+    have h : t.head? ≠ some 47 := hwf
+    rw [nonpath _ (by simpa [linkText] using h)]; rfl
   | device path =>
     obtain ⟨hhead, hnul, _, _, himp⟩ := hwf
     unfold pyReadlinkDenied pyReadlink
@@ -462,7 +510,7 @@ theorem scanOne_render (c : Cfg) (hg : c.GoodScan) (ha : c.GoodAccess)
     simp only
     rw [← hden, ← hcond, hdl]
     cases pyReadlinkDenied c fs (linkText d.kind) <;>
-      cases (startsWith c.absPrefix (pyReadlink c fs (linkText d.kind)) &&
+      cases ((startsWith c.absPrefix (pyReadlink c fs (linkText d.kind)) || !c.absFirst) &&
         (c.isfileDeniedRaises && fs.denied (pyReadlink c fs (linkText d.kind)))) <;> simp
   have hrf := reachesFdinfo_eq fs d.kind
   unfold hits deniedFd renderFd
@@ -610,6 +658,163 @@ theorem killFrom_not_denied (fs : FS) (k : Nat) (t : List Fd) (h : ∀ d ∈ t, 
     cases k with
     | zero => simp [killFrom, deniedFd, ih 0 hds]
     | succ k => simp [killFrom, hd, ih k hds]
+
+/-! ### round 3: the process dies right after the link of descriptor `k` was read -/
+
+theorem failsGone_eq_hits (fs : FS) (d : Fd) : failsGone fs d = hits fs d := by
+  unfold failsGone hits
+  rw [reachesFdinfo_eq]
+  cases d.closesAt with
+  | none => rfl
+  | some st => cases st <;> rfl
+
+theorem any_failsGone (fs : FS) (t : List Fd) : t.any (failsGone fs) = t.any (hits fs) := by
+  congr 1
+  funext d
+  exact failsGone_eq_hits fs d
+
+theorem afterLink_kind (d : Fd) : (afterLink d).kind = d.kind := by
+  unfold afterLink
+  cases d.closesAt with
+  | none => rfl
+  | some st => cases st <;> rfl
+
+theorem killAfter_length (k : Nat) (t : List Fd) : (killAfter k t).length = t.length := by
+  induction t generalizing k with
+  | nil => cases k <;> rfl
+  | cons d ds ih => cases k <;> simp [killAfter, ih, killFrom_length]
+
+theorem killAfter_ge (k : Nat) (t : List Fd) (h : t.length ≤ k) : killAfter k t = t := by
+  induction t generalizing k with
+  | nil => cases k <;> rfl
+  | cons d ds ih =>
+    cases k with
+    | zero => simp at h
+    | succ k => simp [killAfter, ih k (by simpa using h)]
+
+theorem killAfter_wf (fs : FS) (k : Nat) (t : List Fd) (h : ∀ d ∈ t, WFFd fs d) :
+    ∀ d ∈ killAfter k t, WFFd fs d := by
+  induction t generalizing k with
+  | nil => cases k <;> simp [killAfter]
+  | cons d ds ih =>
+    have hd := h d (by simp)
+    have hds : ∀ x ∈ ds, WFFd fs x := fun x hx => h x (by simp [hx])
+    cases k with
+    | zero =>
+      intro x hx
+      simp only [killAfter, List.mem_cons] at hx
+      rcases hx with e | hx
+      · subst e
+        unfold WFFd at hd ⊢
+        rw [afterLink_kind]
+        exact hd
+      · exact killFrom_wf fs 0 ds hds x hx
+    | succ k =>
+      intro x hx
+      simp only [killAfter, List.mem_cons] at hx
+      rcases hx with e | hx
+      · subst e; exact hd
+      · exact ih k hds x hx
+
+/-- no access failed although the process died after the link of descriptor `k`: then `k` was the
+    last descriptor and nothing of it is listed — the report is the one of the untouched table -/
+theorem killAfter_listed_of_no_hits (fs : FS) (k : Nat) (t : List Fd)
+    (h : (killAfter k t).any (hits fs) = false) :
+    (killAfter k t).filterMap (listed fs) = t.filterMap (listed fs) := by
+  induction t generalizing k with
+  | nil => cases k <;> rfl
+  | cons d ds ih =>
+    cases k with
+    | succ k =>
+      simp only [killAfter, List.any_cons, Bool.or_eq_false_iff] at h
+      simp only [killAfter, List.filterMap_cons, ih k h.2]
+    | zero =>
+      simp only [killAfter, List.any_cons, Bool.or_eq_false_iff] at h
+      have hds : ds = [] := by
+        cases ds with
+        | nil => rfl
+        | cons x xs =>
+          have := killFrom_hits fs 0 (x :: xs) (by simp)
+          rw [this] at h
+          exact absurd h.2 (by simp)
+      subst hds
+      have h1 := h.1
+      simp only [killAfter, killFrom, List.filterMap_cons, List.filterMap_nil]
+      have e : listed fs (afterLink d) = none ∧ listed fs d = none := by
+        rw [listed_eq, listed_eq]
+        unfold afterLink hits at *
+        cases hc : d.closesAt with
+        | none =>
+          simp only [hc] at h1 ⊢
+          cases ht : target fs d.kind with
+          | none => simp
+          | some q => rw [ht] at h1; simp at h1
+        | some st =>
+          cases st with
+          | beforeReadlink e => simp [hc] at h1
+          | beforeFdinfo e => simp
+          | duringFdinfo b e => simp
+      rw [e.1, e.2]
+
+theorem killAfter_hits_succ (fs : FS) (k : Nat) (t : List Fd) (h : k + 1 < t.length) :
+    (killAfter k t).any (hits fs) = true := by
+  induction t generalizing k with
+  | nil => simp at h
+  | cons d ds ih =>
+    cases k with
+    | zero =>
+      simp only [killAfter, List.any_cons]
+      rw [killFrom_hits fs 0 ds (by simpa using h), Bool.or_true]
+    | succ k =>
+      simp only [killAfter, List.any_cons, ih k (by simpa using h), Bool.or_true]
+
+theorem seen_wf (w : World) (h : ∀ d ∈ w.fds, WFFd w.fs d) : ∀ d ∈ w.seen, WFFd w.fs d := by
+  unfold World.seen
+  cases w.diesAt with
+  | none => exact h
+  | some k =>
+    cases w.diesAfterLink with
+    | false => exact killFrom_wf w.fs k w.fds h
+    | true => exact killAfter_wf w.fs k w.fds h
+
+theorem seen_length (w : World) : w.seen.length = w.fds.length := by
+  unfold World.seen
+  cases w.diesAt with
+  | none => rfl
+  | some k => cases w.diesAfterLink <;> simp [killFrom_length, killAfter_length]
+
+theorem seen_of_not_died (w : World) (h : w.died = false) : w.seen = w.fds := by
+  unfold World.died at h
+  unfold World.seen
+  cases hda : w.diesAt with
+  | none => rfl
+  | some k =>
+    rw [hda] at h
+    have hk : w.fds.length ≤ k := by simpa using h
+    cases w.diesAfterLink
+    · exact killFrom_ge k w.fds hk
+    · exact killAfter_ge k w.fds hk
+
+theorem seen_listed_of_no_hits (w : World) (h : w.seen.any (hits w.fs) = false) :
+    w.seen.filterMap (listed w.fs) = w.fds.filterMap (listed w.fs) := by
+  unfold World.seen at h ⊢
+  cases hda : w.diesAt with
+  | none => rfl
+  | some k =>
+    rw [hda] at h
+    cases hal : w.diesAfterLink with
+    | true =>
+      rw [hal] at h
+      exact killAfter_listed_of_no_hits w.fs k w.fds h
+    | false =>
+      rw [hal] at h
+      simp only [Bool.false_eq_true, if_false] at h ⊢
+      by_cases hk : k < w.fds.length
+      · rw [killFrom_hits w.fs k w.fds hk] at h; cases h
+      · rw [killFrom_ge k w.fds (by omega)]
+
+theorem died_of_diesAt_none (w : World) (h : w.diesAt = none) : w.died = false := by
+  simp [World.died, h]
 
 /-- descriptors that close do not disturb the report about the others -/
 theorem listed_filter_open (fs : FS) (t : List Fd) :
